@@ -47,8 +47,14 @@ def _tilt_id(t):
 
 def dig(obj):
     """strict structural digest of anything the catalogue passes in or gets back"""
-    if obj is None or isinstance(obj, (bool, int, float, complex, str)):
-        return repr(obj)
+    if obj is None or isinstance(obj, (bool, np.bool_, str)):
+        return repr(bool(obj)) if isinstance(obj, (bool, np.bool_)) else repr(obj)
+    if isinstance(obj, (int, np.integer)):
+        return ('i', int(obj))                      # a Python int and a numpy integer with the same value are the same answer
+    if isinstance(obj, (float, np.floating)):
+        return ('f', float(obj).hex())
+    if isinstance(obj, (complex, np.complexfloating)):
+        return ('c', complex(obj).real.hex(), complex(obj).imag.hex())
     if isinstance(obj, np.generic):
         return _h(np.asarray(obj))
     if isinstance(obj, np.ndarray):
@@ -406,8 +412,11 @@ def _chk_case(o, mode, key, case, acc, seed):
             others = {q: dig(v) for q, v in args.items() if q != p}
             np.random.seed(4242)
             # the other arguments are rebuilt fresh (a call may legitimately consume them); the refilled object is the same object
-            args2 = o.args(seed, o.variants()[0])
-            args2[p] = args[p]
+            if o.writes or o.consumes:
+                args2 = o.args(seed, o.variants()[0])
+                args2[p] = args[p]
+            else:
+                args2 = args                        # the very same objects for every argument (a query left them as they were)
             r = _result(o, _call(o, args2), args2)
             if dig(r) != cold_b:
                 acc.violation(f'{key}:stale-after-in-place-edit:{p}', case,
